@@ -1,4 +1,5 @@
 import LexVerif.Proof.SlowBigint
+import LexVerif.Proof.SlowMantissa
 /-!
 # Proof.SlowTables — the table facts `Bigint::pow` needs (`BigPowOk`), checked by evaluation
 
@@ -91,5 +92,44 @@ theorem bigPowOk_of_envRadix {E : Env} {r : Nat} (h : EnvRadix E r) :
   · subst hE; subst hr; exact key _ pow_tables_compact
   · subst hE; exact key _ ((List.all_eq_true.mp pow_tables_radix) r hr)
   · subst hE; exact key _ ((List.all_eq_true.mp pow_tables_compact_radix) r hr)
+
+/-! ## `parse_mantissa` tables -/
+
+def mantOkB (E : Env) (radix : Nat) : Bool :=
+  decide (0 < radix) && decide (0 < E.S.u64PowerLimit radix) && decide (radix ^ E.S.u64PowerLimit radix < 2 ^ 64) &&
+  (List.range (E.S.u64PowerLimit radix + 1)).all fun e => decide (intPowFastPath E e radix = some (radix ^ e))
+
+theorem mantOk_of_check {E : Env} {radix : Nat} (h : mantOkB E radix = true) : MantOk E radix := by
+  unfold mantOkB at h
+  simp only [Bool.and_eq_true, decide_eq_true_eq, List.all_eq_true, List.mem_range] at h
+  obtain ⟨⟨⟨h1, h2⟩, h3⟩, h4⟩ := h
+  refine ⟨h1, h2, h3, fun e he => h4 e (by omega), ?_⟩
+  intro hm
+  unfold multidigit at hm
+  simp only [Bool.and_eq_true, decide_eq_true_eq] at hm
+  exact hm.2
+
+/-- `max_digits + 1` digits fit the big integer (so that no capacity check of `parse_mantissa` can fail), for both
+float types -/
+def mantFitB (E : Env) (radix : Nat) : Bool :=
+  [f32, f64].all fun f => match E.S.maxDigits f radix with
+    | some d => decide (0 < d) && decide (radix ^ (d + 1) ≤ 2 ^ (64 * E.L.bigintLimbs))
+    | none => false
+
+theorem mant_tables_default : (mantOkB envDefault 10 && mantFitB envDefault 10) = true := by decide +kernel
+theorem mant_tables_compact : (mantOkB envCompact 10 && mantFitB envCompact 10) = true := by decide +kernel
+theorem mant_tables_radix : digitRadices.all (fun r => mantOkB envRadix r && mantFitB envRadix r) = true := by
+  decide +kernel
+theorem mant_tables_compact_radix :
+    digitRadices.all (fun r => mantOkB envCompactRadix r && mantFitB envCompactRadix r) = true := by decide +kernel
+
+theorem mant_of_envRadix {E : Env} {r : Nat} (h : EnvRadix E r) : mantOkB E r = true ∧ mantFitB E r = true := by
+  have split : ∀ {a b : Bool}, (a && b) = true → a = true ∧ b = true := by
+    intro a b h; simpa using h
+  rcases h with ⟨hE | hE, hr⟩ | ⟨hE | hE, hr⟩
+  · subst hE; subst hr; exact split mant_tables_default
+  · subst hE; subst hr; exact split mant_tables_compact
+  · subst hE; exact split ((List.all_eq_true.mp mant_tables_radix) r hr)
+  · subst hE; exact split ((List.all_eq_true.mp mant_tables_compact_radix) r hr)
 
 end LexVerif.Proof.Slow
